@@ -1561,6 +1561,14 @@ namespace bloch::compiler {
                                  "'" + fn->name + "' is already declared in this scope");
             }
             declareFunction(fn->name);
+            // Record the signature now, so that calls are checked against it wherever the
+            // function is declared (after its first use, or used from a class - classes are
+            // analysed before functions). Otherwise such calls saw an empty signature:
+            // "expects 0 argument(s)" and no return-type checking.
+            FunctionInfo info;
+            info.returnType = typeFromAst(fn->returnType.get());
+            for (auto& p : fn->params) info.paramTypes.push_back(typeFromAst(p->type.get()));
+            m_functionInfo[fn->name] = info;
         }
         for (auto& cls : program.classes)
             if (cls)
